@@ -332,6 +332,39 @@ func genC02u(g *Gen) {
 		}
 	}
 
+	// (U6) two DIFFERENT words with the SAME packed index (every byte rotated: same byte popcounts), the same k, back to
+	// back A B A: an answer remembered per (index, k) - the word itself not part of the key - is wrong for B.
+	// (Added after the self-test: mutant X5 survived the per-word sweeps, which never repeat an (index, k) pair.)
+	for q := 0; q < g.N(150, 1500); q++ {
+		var w1 uint64
+		switch q % 4 {
+		case 0:
+			w1 = g.R.U64()
+		case 1:
+			w1 = g.R.U64() & g.R.U64()
+		case 2:
+			w1 = g.R.U64() | g.R.U64()
+		default:
+			w1 = g.R.U64() & g.R.U64() & g.R.U64()
+		}
+		var w2 uint64
+		for b := 0; b < 8; b++ {
+			x := uint8(w1 >> uint(8*b))
+			w2 |= uint64(bits.RotateLeft8(x, 1+g.R.Intn(7))) << uint(8*b)
+		}
+		n := bits.OnesCount64(w1)
+		if w2 == w1 || n == 0 {
+			continue
+		}
+		g.Stat("u64-same-index-pair")
+		for _, k := range []int{0, n - 1, g.R.Intn(n), g.R.Intn(n)} {
+			key := fmt.Sprintf("u64sel/sameidx/pop%d", c02uPopClass(n))
+			g.Do("bitmap.selectU64Indexed", L(U(w1), Int(k)), key)
+			g.Do("bitmap.selectU64Indexed", L(U(w2), Int(k)), key)
+			g.Do("bitmap.selectU64Indexed", L(U(w1), Int(k)), "")
+		}
+	}
+
 	// (S) select32single on its own bitmaps (beside the hooks in genC02's sel / index / rle closures): small bitmaps
 	// with the checkpoint inside a word and the answer 1..3 words on, and the sentinels on empty bitmaps
 	for n := 0; n <= 3; n++ {
